@@ -38,6 +38,14 @@ def _insert_after_last(body, line_re, point, what):
     return body[:m.end()] + indent + 'verifsched.Point("%s")\n' % point + body[m.end():]
 
 
+def _insert_mark_before(body, line_re, what):
+    ms = list(re.finditer(line_re, body, re.M))
+    if len(ms) != 1:
+        raise Exception("marker: expected exactly one %s, found %d" % (what, len(ms)))
+    m = ms[0]
+    return body[:m.start()] + "\tverifsched.Mark()\n" + body[m.start():]
+
+
 def _point_after_exec(src, fname):
     """mutators: park between the SQL statement and everything that follows it (rows-affected check,
     InvalidateCache): right after the `if err != nil { … }` block that follows the LAST am.db.Exec( of
@@ -51,6 +59,11 @@ def _point_after_exec(src, fname):
     if not m:
         raise Exception("%s: no `if err != nil {…}` after am.db.Exec(" % fname)
     body = body[:m.end()] + '\tverifsched.Point("m.upd")\n' + body[m.end():]
+    # non-parking marker right before the statement that asks the pool for a connection
+    ls = body.rfind("\n", 0, k) + 1
+    if not body[ls:k].startswith("\t") or body[ls:k].startswith("\t\t"):
+        raise Exception("%s: am.db.Exec( is not a top-level statement of the function" % fname)
+    body = body[:ls] + "\tverifsched.Mark()\n" + body[ls:]
     return src[:i] + body + src[j:]
 
 
@@ -69,6 +82,8 @@ def rewrite_auth(src):
     body = _insert_before_last(body, r"^\t+am\.cacheMu\.Lock\(\)\n", "v.preins", "cache insert Lock")
     # after the cache insert (still holding the query's rows): the last write-unlock
     body = _insert_after_last(body, r"^\t+am\.cacheMu\.Unlock\(\)\n", "v.ins", "cache insert Unlock")
+    # non-parking marker right before the query asks the pool for a connection
+    body = _insert_mark_before(body, r"^\t\w+, err :?= am\.db\.Query\(", "VerifyToken db.Query")
     # rows exhausted without a match
     body = _insert_before_last(body, r"^\treturn nil\n", "v.norow", "final return nil")
     src = src[:i] + body + src[j:]
